@@ -259,9 +259,17 @@ class FlakyDestination(object):
             raise IOError("flaky destination, call %d" % self.calls)
 
 
-def placement_oracle(ctx, received, what):
-    """C02's statement, checked on the stream one accepting destination saw."""
+def placement_oracle(ctx, received, what, exempt_remote_order=False):
+    """C02's statement, checked on the stream one accepting destination saw.
+    ``exempt_remote_order``: a hand-off (serialize_task_id / preserve_context) reserves its
+    position when the id is made, in causal order, but the other thread emits the sub-tree
+    later; for such children only uniqueness and contiguity are demanded, not emission order."""
     seen = set()
+    remote = set()
+    for m in received:
+        if m.get("action_type") == "eliot:remote_task" and m.get("action_status") == "started":
+            lvl = m["task_level"]
+            remote.add((m["task_uuid"], tuple(lvl[:-2]), lvl[-2]))
     first_order = {}  # (uuid, prefix) -> positions in order of first appearance
     item = {}  # (uuid, prefix, pos) -> "start" | "end" | "msg"
     for idx, m in enumerate(received):
@@ -290,7 +298,8 @@ def placement_oracle(ctx, received, what):
     for (u, prefix), order in first_order.items():
         n = len(order)
         ctx.check(sorted(order) == list(range(1, n + 1)), "%s: positions used inside action %s%r are %r, not 1..%d", what, u, list(prefix), sorted(order), n)
-        ctx.check(order == sorted(order), "%s: inside action %s%r items were first emitted in position order %r", what, u, list(prefix), order)
+        timed = [p for p in order if not (exempt_remote_order and (u, prefix, p) in remote)]
+        ctx.check(timed == sorted(timed), "%s: inside action %s%r items were first emitted in position order %r", what, u, list(prefix), order)
         first = item.get((u, prefix, 1))
         if first != "start":
             # only a context-less message may occupy position 1 without a start
@@ -335,6 +344,30 @@ def E1() -> bool:
     return run(body_E1, "X", {})
 
 
+# -- E2: concurrent threads (and preserve_context hand-offs) -------------------------------
+def body_E2(ctx):
+    """Same thread programs and scheduler as C05 E1; here the merged stream is checked for
+    run-wide uniqueness and per-action contiguity/order."""
+    from props import c05
+
+    received, sched = c05.body_E1(ctx)
+    placement_oracle(ctx, received, "threads, schedule %s" % sched.render(), exempt_remote_order=True)
+
+
+def E2() -> bool:
+    """
+    post: _
+    """
+    return run(body_E2, "X", {})
+
+
+def _e2_shards(tier):
+    from props import c05
+
+    base = {"workers": 2, "P": 1, "preserve": 1} if tier == "quick" else {"workers": 2, "P": 2, "preserve": 1}
+    return [dict(base, prefix=p) for p in enumerate_prefixes(body_E2, "X", {}, base, 4)]
+
+
 def _e1_shards(tier):
     N, D, F = (4, 3, 2) if tier == "quick" else (5, 3, 3)
     profiles = [{}, {"open": 1}, {"open": 2}, {"open": 3}, {"open": 4}, {"open": 5}, {"msg": 4}, {"fin": 1}, {"exc": 2}, {"flaky_first": 0}]
@@ -365,6 +398,18 @@ OBLIGATIONS = [
         twin=[{"N": 4, "D": 3, "F": 2, "twin_label": "end-of-nested-action-failed"}],
         timeout={"quick": 100, "thorough": 900},
         bounds={"quick": "op sequences <= 4 ops (baseline profile; <= 3 ops for the other profiles), depth <= 3, <= 2 failing calls of the other destination at solver-chosen points (incl. on failure reports), 10 style profiles, failing destination registered before/after the healthy one", "thorough": "<= 5 ops, <= 3 failing calls"},
+    ),
+    Ob(
+        "E2",
+        E2,
+        body_E2,
+        "X",
+        desc="main + 2 worker threads (plain or via preserve_context) interleaved at logging-call boundaries: merged stream unique and contiguous per action",
+        functions=["Action._nextTaskLevel", "start_action", "log_message", "preserve_context", "Action.serialize_task_id", "Action.continue_task"],
+        shards=_e2_shards,
+        twin=[{"workers": 2, "P": 1, "preserve": 1, "twin_label": "interleaved"}],
+        timeout={"quick": 100, "thorough": 1500},
+        bounds={"quick": "3 worker programs each for 2 threads, plain or preserve_context, <= 1 preemption at call granularity in eliot/_action.py", "thorough": "<= 2 preemptions"},
     ),
     Ob("L7", L7, body_L7, "S", desc="TaskLevel order = tree pre-order", functions=["TaskLevel.__lt__", "__le__", "__gt__", "__ge__", "__eq__", "__hash__", "next_sibling", "child", "parent"], bounds={"quick": "levels of depth <= 4 (+2), any positions j<k, m>=1"}, timeout={"quick": 120, "thorough": 300}),
 ]
